@@ -1,13 +1,14 @@
 (* EngineCorr.v — correspondence for the engine family: scenario and observation types,
    the model's observation of a scenario, and the admits_* comparison used by case files. *)
-From Flyt Require Import Base Script FlowTable Engine.
+From Flyt Require Import Base Script FlowTable Engine BatchConc.
 
 Record escen := {
   es_nodes : list (nid * ndef);
   es_root : nid;
   es_precancel : bool;
   es_script : script;
-  es_runs : nat
+  es_runs : nat;
+  es_release : list nat   (* gated concurrent batches: release priority of the parked exec calls *)
 }.
 
 Inductive runflag := OkRun | Panicked | TimedOut.
@@ -21,19 +22,16 @@ Fixpoint table_of (l : list (nid * ndef)) : table :=
     | (k, d) :: rest => if Nat.eqb n k then Some d else table_of rest n
     end.
 
-(* engine-family scenarios contain no concurrent batch node; scen_ok checks it, and the
-   executor below is never reached *)
-Definition conc_unused : ucfg -> nat -> bool -> nid -> ms -> list val -> ms * list val :=
-  fun _ _ _ _ s items => (s, map (fun _ => VOther) items).
-
-Definition scen_ok (sc : escen) : bool :=
-  forallb (fun kd => match snd kd with NBatch _ conc _ => Nat.eqb conc 0 | _ => true end)
-          (es_nodes sc).
+(* concurrent batch nodes run under the gated schedule of Model/BatchConc.v: every exec call
+   parks, the parked call that comes first in es_release is released, the rest of the system
+   runs to quiescence *)
+Definition scen_ok (sc : escen) : bool := true.
 
 Definition FUEL := 48.
 
 Definition model_run (sc : escen) (s : ms) : option (ms * outcome) :=
-  run (oracle_of (es_script sc)) conc_unused (table_of (es_nodes sc)) FUEL s (es_root sc).
+  run (oracle_of (es_script sc)) (gated_exec (oracle_of (es_script sc)) (es_release sc))
+      (table_of (es_nodes sc)) FUEL s (es_root sc).
 
 Definition visible (l : list event) : list event :=
   filter (fun e => negb (is_wait (ev_call e))) l.
